@@ -8,5 +8,6 @@ CONSTANTS
   Kinds = {}
   MaxFault = 0
   Record = FALSE
+  Dias = {"ansi", "tsql_ns"}
 INVARIANT Report
 CHECK_DEADLOCK FALSE
